@@ -125,10 +125,23 @@ def rule_r1(chk, p, t):
     init = base.methods.get("__init__")
     if init is not None:
         asg = [n for n in walk_no_nested(init.node) if isinstance(n, ast.Assign) and unparse(n.targets[0]) == "self.threshold"]
-        if len(asg) == 1 and unparse(asg[0].value) == init.params[1]:
+        rebound = [n for n in walk_no_nested(init.node) if isinstance(n, ast.Name) and n.id == init.params[1] and isinstance(n.ctx, (ast.Store, ast.Del))]
+        if rebound:
+            r.violation(base.qualname + ".threshold", "threshold-transformed", f"the constructor re-binds `{init.params[1]}` (line {rebound[0].lineno}) before storing it: the detector tests against another significance than the configured one", init.loc(rebound[0]))
+        elif len(asg) == 1 and unparse(asg[0].value) == init.params[1]:
             r.ok(base.qualname + ".threshold", "threshold stored from the constructor argument", init.loc())
         else:
             r.violation(base.qualname + ".threshold", "threshold-provenance", "the configured significance is not stored as self.threshold", init.loc())
+    for sc in subs:
+        si = sc.methods.get("__init__")
+        if si is not None and len(si.params) > 1:
+            sup = [c for c in walk_no_nested(si.node) if isinstance(c, ast.Call) and isinstance(c.func, ast.Attribute) and c.func.attr == "__init__"]
+            tp = si.params[1]
+            reb = [n for n in walk_no_nested(si.node) if isinstance(n, ast.Name) and n.id == tp and isinstance(n.ctx, (ast.Store, ast.Del))]
+            if reb or not sup or not sup[0].args or unparse(sup[0].args[0]) != tp:
+                r.violation(sc.qualname + ".__init__", "threshold-not-forwarded", f"{sc.name}.__init__ does not hand its `{tp}` argument unchanged to the base constructor", si.loc())
+            else:
+                r.ok(sc.qualname + ".__init__", f"super().__init__({tp})", si.loc())
     for sc in subs:
         fc = sc.methods.get("fromConfig")
         if fc is not None:
